@@ -171,7 +171,12 @@ class _Ren:
         elif s[0] == "return":
             if self.ti:
                 self.lines.append("%staken(%d)" % (p, k))
-            self.lines.append("%sreturn m(%d%s)" % (p, k, self._lv()))
+            if k % 3 == 0:
+                # a bare return (no value): the marker runs as a statement of its own
+                self.lines.append("%sm(%d%s)" % (p, k, self._lv()))
+                self.lines.append(p + "return")
+            else:
+                self.lines.append("%sreturn m(%d%s)" % (p, k, self._lv()))
         elif s[0] == "if":
             self.lines.append("%sif c(%d):" % (p, k))
             self.block(s[1], ind + 1)
